@@ -213,3 +213,248 @@ print('RESULT ' + json.dumps({'n': n, 'bad': bad}, default=str))
                                 'compile history independence; caller dictionaries unmodified',
                         'bound': f'all histories of length {depth} ({res["n"]} cases incl. compile permutations)',
                         'exhaustive_up_to_bound': True}}
+
+
+# ------------------------------------------------------------------------------------------ C12
+_C12_NOARG = ('OP_FALSE OP_TRUE OP_POP0 OP_SIZE OP_READ_CACHE_STACK OP_READ_CACHE_STACK_SIZE OP_DIV_INTS OP_MOD_INTS '
+              'OP_DIV_FLOATS OP_MOD_FLOATS OP_DUP OP_SHA256 OP_VERIFY OP_EQUAL OP_EQUAL_VERIFY OP_CHECK_TIMESTAMP '
+              'OP_CHECK_TIMESTAMP_VERIFY OP_CHECK_EPOCH OP_CHECK_EPOCH_VERIFY OP_EVAL OP_RANDOM OP_NOT OP_RETURN '
+              'OP_DEPTH OP_SWAP2 OP_CONCAT OP_CONCAT_STR OP_CHECK_TRANSFER OP_LESS OP_LESS_OR_EQUAL OP_FLOAT_LESS '
+              'OP_FLOAT_LESS_OR_EQUAL OP_INT_TO_FLOAT OP_FLOAT_TO_INT OP_SIGN_STACK OP_CHECK_SIG_STACK '
+              'OP_DERIVE_SCALAR OP_DERIVE_POINT OP_MAKE_ADAPTER_SIG_PUBLIC OP_MAKE_ADAPTER_SIG_PRIVATE '
+              'OP_CHECK_ADAPTER_SIG OP_DECRYPT_ADAPTER_SIG OP_XOR OP_INVOKE OP_OR OP_AND OP_SPLIT OP_SPLIT_STR').split()
+_C12_SIZED = 'OP_READ_CACHE OP_READ_CACHE_SIZE OP_SET_FLAG OP_UNSET_FLAG OP_GET_VALUE'.split()
+_C12_SBYTE = ('OP_PUSH0 OP_POP1 OP_ADD_INTS OP_SUBTRACT_INTS OP_MULT_INTS OP_ADD_FLOATS OP_SUBTRACT_FLOATS '
+              'OP_ADD_POINTS OP_CALL OP_COPY OP_SHAKE256 OP_REVERSE OP_CLAMP_SCALAR OP_ADD_SCALARS '
+              'OP_SUBTRACT_SCALARS OP_SUBTRACT_POINTS').split()
+_C12_XBYTE = 'OP_CHECK_SIG OP_CHECK_SIG_VERIFY OP_SIGN OP_TAPROOT OP_GET_MESSAGE OP_CHECK_TEMPLATE OP_CHECK_TEMPLATE_VERIFY'.split()
+
+
+def _c12_program(rnd, code_of, nop_names, depth, n_max=6, in_def=False):
+    """random abstract program -> (reference bytes, reference listing lines without indentation).
+    The reference encodings are written from docs.md / language_spec.md (one encoder per operand
+    class), independently of parsing.py."""
+    out_b, out_l = b'', []
+
+    def sbyte():
+        v = rnd.choice((0, 1, -1, 127, -128, rnd.randrange(-128, 128)))
+        return v, (v & 0xff).to_bytes(1, 'big')
+
+    def minimal_int():
+        v = rnd.choice((0, 1, -1, 127, 128, -128, -129, 255, 256, 32767, 32768, -32768, -32769,
+                        rnd.randrange(-2**40, 2**40)))
+        ln = 1
+        while True:
+            try:
+                return v, v.to_bytes(ln, 'big', signed=True)
+            except OverflowError:
+                ln += 1
+
+    def block(in_def_=in_def):
+        return _c12_program(rnd, code_of, nop_names, depth - 1, 3, in_def_) if depth > 0 else (b'', [])
+
+    for _ in range(rnd.randrange(0, n_max + 1)):
+        kinds = ['noarg', 'push1', 'sized', 'divint', 'wcache', 'sbyte', 'xbyte', 'push2', 'divfloat', 'swap',
+                 'multisig', 'merkleval', 'nop']
+        if depth > 0:
+            kinds += ['if', 'ifelse', 'try', 'loop'] * 2
+            if not in_def:
+                kinds += ['def'] * 2        # the compiler rejects OP_DEF inside an OP_DEF body
+        k = rnd.choice(kinds)
+        if k == 'noarg':
+            n = rnd.choice(_C12_NOARG)
+            out_b += bytes([code_of[n]]); out_l.append(n)
+        elif k == 'push1':
+            v = rnd.randbytes(rnd.choice((1, 2, 31, 32, 64, 255, rnd.randrange(1, 256))))
+            out_b += bytes([code_of['OP_PUSH1'], len(v)]) + v
+            out_l.append(f'OP_PUSH1 d{len(v)} x{v.hex()}')
+        elif k == 'push2':
+            v = rnd.randbytes(rnd.choice((256, 257, 300, 1000, rnd.randrange(256, 1500))))
+            out_b += bytes([code_of['OP_PUSH2']]) + len(v).to_bytes(2, 'big') + v
+            out_l.append(f'OP_PUSH2 d{len(v)} x{v.hex()}')
+        elif k == 'sized':
+            n = rnd.choice(_C12_SIZED)
+            v = rnd.randbytes(rnd.choice((1, 2, 32, 255, rnd.randrange(1, 256))))
+            out_b += bytes([code_of[n], len(v)]) + v
+            out_l.append(f'{n} x{v.hex()}')
+        elif k == 'divint':
+            n = rnd.choice(('OP_DIV_INT', 'OP_MOD_INT'))
+            v, enc = minimal_int()
+            out_b += bytes([code_of[n], len(enc)]) + enc
+            out_l.append(f'{n} d{v}')
+        elif k == 'wcache':
+            v = rnd.randbytes(rnd.randrange(1, 40))
+            c = rnd.choice((0, 1, 127, 128, 255))
+            out_b += bytes([code_of['OP_WRITE_CACHE'], len(v)]) + v + bytes([c])
+            out_l.append(f'OP_WRITE_CACHE x{v.hex()} d{c}')
+        elif k == 'sbyte':
+            n = rnd.choice(_C12_SBYTE)
+            v, enc = sbyte()
+            out_b += bytes([code_of[n]]) + enc
+            out_l.append(f'{n} d{v}')
+        elif k == 'nop':
+            n = rnd.choice(nop_names)
+            v, enc = sbyte()
+            out_b += bytes([code_of[n]]) + enc
+            out_l.append(f'{n} d{v}')
+        elif k == 'xbyte':
+            n = rnd.choice(_C12_XBYTE)
+            v = rnd.randbytes(1)
+            out_b += bytes([code_of[n]]) + v
+            out_l.append(f'{n} x{v.hex()}')
+        elif k == 'divfloat':
+            n = rnd.choice(('OP_DIV_FLOAT', 'OP_MOD_FLOAT'))
+            v = struct.pack('!f', rnd.choice((1.5, -2.25, 1e10, 3.0)))
+            out_b += bytes([code_of[n]]) + v
+            out_l.append(f'{n} x{v.hex()}')
+        elif k == 'swap':
+            a, b = rnd.choice((0, 1, 127, 128, 255)), rnd.choice((0, 1, 127, 128, 255))
+            out_b += bytes([code_of['OP_SWAP'], a, b])
+            out_l.append(f'OP_SWAP d{a} d{b}')
+        elif k == 'multisig':
+            n = rnd.choice(('OP_CHECK_MULTISIG', 'OP_CHECK_MULTISIG_VERIFY'))
+            f, a, b = rnd.randbytes(1), rnd.choice((0, 1, 127, 128, 255)), rnd.choice((0, 1, 127, 128, 255))
+            out_b += bytes([code_of[n]]) + f + bytes([a, b])
+            out_l.append(f'{n} x{f.hex()} d{a} d{b}')
+        elif k == 'merkleval':
+            v = rnd.randbytes(32)
+            out_b += bytes([code_of['OP_MERKLEVAL']]) + v
+            out_l.append(f'OP_MERKLEVAL x{v.hex()}')
+        elif k == 'def':
+            h = rnd.choice((0, 1, 127, 128, 255))
+            bb, bl = block(True)
+            out_b += bytes([code_of['OP_DEF'], h]) + len(bb).to_bytes(2, 'big') + bb
+            out_l += [f'OP_DEF {h} {{'] + bl + ['}']
+        elif k in ('if', 'loop'):
+            n = 'OP_IF' if k == 'if' else 'OP_LOOP'
+            bb, bl = block()
+            out_b += bytes([code_of[n]]) + len(bb).to_bytes(2, 'big') + bb
+            out_l += [n + ' {'] + bl + ['}']
+        elif k == 'ifelse':
+            b1, l1 = block()
+            b2, l2 = block()
+            out_b += bytes([code_of['OP_IF_ELSE']]) + len(b1).to_bytes(2, 'big') + b1 + len(b2).to_bytes(2, 'big') + b2
+            out_l += ['OP_IF {'] + l1 + ['} ELSE {'] + l2 + ['}']
+        elif k == 'try':
+            b1, l1 = block()
+            b2, l2 = block()
+            out_b += bytes([code_of['OP_TRY_EXCEPT']]) + len(b1).to_bytes(2, 'big') + b1 + len(b2).to_bytes(2, 'big') + b2
+            out_l += ['OP_TRY {'] + l1 + (['} EXCEPT {'] + l2 if l2 else []) + ['}']
+    return out_b, out_l
+
+
+def c12_roundtrip(tier='quick', seed=0):
+    """bounded stand-in for the round-trip clauses of C12 (the termination / no-backward-read clauses are
+    proved on decompile_script's body): (1) for random abstract programs over every operand class and
+    block kind, nesting <= 3: decompile(reference bytes) is the reference listing, and compiling that
+    listing gives the reference bytes back; (2) builder outputs round-trip; (3) decompile_script on
+    arbitrary bytes returns or raises under a watchdog."""
+    import signal
+    import tapescript
+    import tapescript.functions as F
+    from tapescript import parsing, tools
+    rnd = random.Random(seed)
+    code_of = {v[0]: k for k, v in F.opcodes.items()}
+    nop_names = [v[0] for v in F.nopcodes.values()]
+    code_of.update({v[0]: k for k, v in F.nopcodes.items()})
+    n_prog = 400 if tier == 'quick' else 20000
+    bad = None
+    n = 0
+    for _ in range(n_prog):
+        b, lines = _c12_program(rnd, code_of, nop_names, depth=3)
+        n += 1
+        try:
+            got = [ln.strip() for ln in parsing.decompile_script(b)]
+            if got != lines:
+                d = next((i for i, (x, y) in enumerate(zip(got, lines)) if x != y), min(len(got), len(lines)))
+                bad = bad or {'bytes': b.hex()[:400], 'what': 'listing differs from the reference listing',
+                              'at': d, 'got': got[d:d + 2], 'want': lines[d:d + 2]}
+                continue
+            b2 = parsing.compile_script('\n'.join(parsing.decompile_script(b)))
+            if b2 != b:
+                bad = bad or {'bytes': b.hex()[:400], 'what': 'compile(decompile(b)) != b', 'got': b2.hex()[:400]}
+        except BaseException as ex:  # noqa: BLE001
+            bad = bad or {'bytes': b.hex()[:400], 'what': f'{type(ex).__name__}: {ex}'[:300]}
+    # (2) builder outputs
+    seeds = [bytes([i]) * 32 for i in range(1, 5)]
+    from nacl.signing import SigningKey
+    pks = [bytes(SigningKey(s).verify_key) for s in seeds]
+    sf = {'sigfield1': b'hello', 'sigfield2': b'world'}
+    built = []
+
+    def add(name, f):
+        try:
+            built.append((name, f()))
+        except BaseException as ex:  # noqa: BLE001
+            built.append((name, ex))
+    add('after', lambda: tools.make_timestamp_after_lock(1700000000))
+    add('before', lambda: tools.make_timestamp_before_lock(1700000000, True))
+    add('between', lambda: tools.make_timestamp_between_lock(5, 2**33))
+    add('single', lambda: tools.make_single_sig_lock(pks[0], '0f'))
+    add('single2', lambda: tools.make_single_sig_lock2(pks[0]))
+    add('single-w', lambda: tools.make_single_sig_witness(seeds[0], sf, '01'))
+    add('single-w2', lambda: tools.make_single_sig_witness2(seeds[0], sf))
+    add('multisig', lambda: tools.make_multisig_lock(pks[:3], 2))
+    add('scripthash', lambda: tools.make_scripthash_lock(tools.Script.from_src('true')))
+    add('scripthash-w', lambda: tools.make_scripthash_witness(tools.Script.from_src('push x' + 'ab' * 300)))
+    add('delegate', lambda: tools.make_delegate_key_lock(pks[0]))
+    add('delegate-chain', lambda: tools.make_delegate_key_chain_lock(pks[0]))
+    add('graftroot', lambda: tools.make_graftroot_lock(pks[0]))
+    add('htlc', lambda: tools.make_htlc_sha256_lock(pks[0], pks[1], preimage=b'p' * 16))
+    add('htlc-shake', lambda: tools.make_htlc_shake256_lock(pks[0], pks[1], preimage=b'p' * 16))
+    add('htlc2', lambda: tools.make_htlc2_sha256_lock(pks[0], pks[1], preimage=b'p' * 16))
+    add('htlc2-shake', lambda: tools.make_htlc2_shake256_lock(pks[0], pks[1], preimage=b'p' * 16))
+    add('ptlc', lambda: tools.make_ptlc_lock(pks[0], pks[1]))
+    add('ptlc-tweak', lambda: tools.make_ptlc_lock(pks[0], pks[1], tweak_point=pks[2]))
+    add('taproot', lambda: tools.make_taproot_lock(pks[0], tools.Script.from_src('true')))
+    add('taproot-nn', lambda: tools.make_nonnative_taproot_lock(pks[0], tools.Script.from_src('true')))
+    add('taproot-ws', lambda: tools.make_taproot_witness_scriptspend(pks[0], tools.Script.from_src('true if { false }')))
+    add('graftap', lambda: tools.make_graftap_lock(pks[0]))
+    add('adapter-pub', lambda: tools.make_adapter_locks_pub(pks[0], pks[1]))
+    add('merklized', lambda: tools.make_merklized_script_prioritized(['true', 'false', 'push d3'])[0])
+    add('merklized-b', lambda: tools.make_merklized_script_balanced(['true', 'false', 'push d3', 'push d4'])[0])
+    n_built = 0
+    for name, s in built:
+        if isinstance(s, BaseException):
+            raise RuntimeError(f'c12_roundtrip: builder sample {name} could not be built: {s!r}')   # harness error
+        ss = s if isinstance(s, (list, tuple)) else [s]
+        for sc in ss:
+            b = bytes(sc)
+            n_built += 1
+            try:
+                b2 = parsing.compile_script('\n'.join(parsing.decompile_script(b)))
+                if b2 != b:
+                    bad = bad or {'builder': name, 'bytes': b.hex()[:400], 'what': 'compile(decompile(b)) != b'}
+            except BaseException as ex:  # noqa: BLE001
+                bad = bad or {'builder': name, 'bytes': b.hex()[:400], 'what': f'{type(ex).__name__}: {ex}'[:300]}
+    # (3) arbitrary bytes: returns or raises (watchdog 5 s per input)
+    n_arb = 0
+
+    def onalarm(*a):
+        raise TimeoutError
+    old = signal.signal(signal.SIGALRM, onalarm)
+    try:
+        samples = [bytes([op]) + tail for op in range(256) for tail in (b'', b'\xff', b'\xff\xff', b'\xff\xfd',
+                                                                         b'\x80\x00\x00', b'\x00\x01\x00')]
+        samples += [rnd.randbytes(rnd.randrange(0, 60)) for _ in range(2000 if tier == 'quick' else 100000)]
+        for b in samples:
+            n_arb += 1
+            signal.alarm(5)
+            try:
+                parsing.decompile_script(b)
+            except TimeoutError:
+                bad = bad or {'bytes': b.hex(), 'what': 'decompile_script did not return within 5 s'}
+            except RecursionError:
+                bad = bad or {'bytes': b.hex(), 'what': 'RecursionError'}
+            except BaseException:  # noqa: BLE001   (ScriptExecutionError derives from BaseException)
+                pass
+            finally:
+                signal.alarm(0)
+    finally:
+        signal.signal(signal.SIGALRM, old)
+    return {'obligations': [_ob('bounded/C12/round-trip', bad is None, bad)],
+            'bounded': {'what': 'decompile(reference bytes) == reference listing and compile(listing) == bytes for '
+                                'random abstract programs over every operand class and block kind; builder outputs '
+                                'round-trip; decompile_script returns or raises on arbitrary bytes (watchdog)',
+                        'bound': f'{n} programs (nesting <= 3), {n_built} builder scripts, {n_arb} byte strings '
+                                 f'(every opcode x 6 tails + random, length < 60)'}}
